@@ -28,6 +28,8 @@ def selftest():
 
 
 def main():
+    if "--selftest" in sys.argv or "selftest" in sys.argv[1:2]:
+        sys.exit(selftest())
     ap = argparse.ArgumentParser()
     ap.add_argument("pid")
     ap.add_argument("--tier", default=os.environ.get("VERIF_TIER", "quick"), choices=["quick", "thorough"])
